@@ -15,6 +15,10 @@ import (
 type Nested struct {
 	In   *Case
 	Late bool
+	// After: the op only announces the event; it is started, built and finalized after the outer event's finalizer has
+	// returned (in the order announced, together with the Late finalizers): a FOLLOWING event of the same program, on
+	// the same goroutine.  What the outer event left behind in the pools is what it starts from.
+	After bool
 }
 
 // NestedRun: what one executed "log" op did
@@ -40,6 +44,14 @@ func runNested(n *Nested) {
 	if nestW == nil {
 		resetNested()
 	}
+	if n.After {
+		deferred = append(deferred, func() { runNestedNow(n) })
+		return
+	}
+	runNestedNow(n)
+}
+
+func runNestedNow(n *Nested) {
 	w2 := nestW
 	in := n.In
 	idx := len(nestedRuns)
@@ -93,11 +105,18 @@ func runNested(n *Nested) {
 		finish(ev, in.Fin, string(in.Msg))
 		nestedRuns[idx].Done = true
 	}
-	if n.Late {
+	if n.Late && !n.After {
 		deferred = append(deferred, fin)
 	} else {
 		fin()
 	}
+}
+
+// FollowOp: the inner case as a following event of the program (Nested.After)
+func FollowOp(outer *Case, in *Case) Op {
+	op := LogOp(outer, in, false)
+	op.N.After = true
+	return op
 }
 
 // LogOp builds the op; the inner case shares the outer program's settings and clock (they are process-wide).
